@@ -177,6 +177,10 @@ static void sec_special(void)
                 rv += 2 * skinny128_set_tweak(&t, KEYS[0], 17) + 4 * skinny128_set_tweaked_key(&t, KEYS[0], 33);
                 skinny128_ecb_encrypt(out + 48, blk, &t.ks);
                 out_digest("S3-skinny128-tweak-special-forms", out, 64);
+                /* three changes in a row: a full-length tweak, a short one, another one (the stored copy of the second must be zero padded) */
+                rv &= skinny128_set_tweak(&t, KEYS[0] + 3, 16); rv &= skinny128_set_tweak(&t, KEYS[1] + 7, 4); rv &= skinny128_set_tweak(&t, KEYS[0] + 9, 11); skinny128_ecb_encrypt(out, blk, &t.ks);
+                rv &= skinny128_set_tweak(&t, KEYS[1] + 5, 16); rv &= skinny128_set_tweak(&t, KEYS[1] + 5, 6); rv &= skinny128_set_tweak(&t, NULL, 16); skinny128_ecb_decrypt(out + 16, blk, &t.ks);
+                out_digest("S3-skinny128-tweak-three-changes", out, 32);
                 rv &= skinny64_set_tweaked_key(&u, KEYS[kc], 8u * (unsigned)z); rv &= skinny64_set_tweak(&u, KEYS[1] + 1, 8); skinny64_ecb_encrypt(out, blk, &u.ks);
                 rv &= skinny64_set_tweak(&u, NULL, 8); skinny64_ecb_encrypt(out + 8, blk, &u.ks);
                 rv &= skinny64_set_tweak(&u, KEYS[1] + 2, 3); rv &= skinny64_set_tweak(&u, NULL, 1); rv &= skinny64_set_tweak(&u, KEYS[0] + 5, 5); skinny64_ecb_decrypt(out + 16, blk, &u.ks);
